@@ -36,6 +36,13 @@ let () =
         (match base64_encode bs with
          | Some o -> print_endline ("OK " ^ hex_of_zlist o)
          | None -> print_endline "FUEL")
+      | "P" :: rest ->
+        let a = zlist_of_hex (match rest with [h] -> h | _ -> "") in
+        (match parse_range a with
+         | ArgIndices l -> print_endline ("IDX " ^ String.concat "," (List.map (fun x -> string_of_int (int_of_nat x)) l))
+         | ArgFile -> print_endline "FILE"
+         | ArgUsage -> print_endline "USAGE"
+         | ArgHuge -> print_endline "HUGE")
       | "R" :: rest ->
         let bs = zlist_of_hex (match rest with [h] -> h | _ -> "") in
         print_endline ("OK " ^ hex_of_zlist (rfc4648 bs))
